@@ -957,7 +957,11 @@ func RenderFileAs(f *FileSpec, pkgAuto bool, regSuffix string) (src, side string
 		// is processed in order. The model follows the tool here.
 		instrLine := -1
 		inProg := false
+		lineDir := 0 // 1-based line of the "//line <file>:40" directive, if any
 		for i, line := range strings.Split(src, "\n") {
+			if line == "//line "+f.Name+":40" {
+				lineDir = i + 1
+			}
 			if strings.HasPrefix(line, "// "+s.Name+" runs one generated") {
 				inProg = true
 			}
@@ -975,7 +979,13 @@ func RenderFileAs(f *FileSpec, pkgAuto bool, regSuffix string) (src, side string
 					if s.AutoNames == nil {
 						s.AutoNames = map[int]string{}
 					}
-					s.AutoNames[unit] = fmt.Sprintf("%s.%d", f.Name, i+2) // i is 0-based; the expression is on the next line
+					ln := i + 2 // i is 0-based; the expression is on the next line
+					if lineDir > 0 && ln > lineDir {
+						// the tool names the task after the position as adjusted by
+						// the file's own //line directive (the line after it is line 40)
+						ln = 40 + (ln - lineDir - 1)
+					}
+					s.AutoNames[unit] = fmt.Sprintf("%s.%d", f.Name, ln)
 				}
 			}
 		}
